@@ -46,7 +46,7 @@ static RecMM* self(UriMemoryManager*m){ return (RecMM*)m->userData; }
 // the recording manager's own use of libc is not the library's: suspend attribution while inside it
 struct NoLib { int save; NoLib():save(g_in_lib){ g_in_lib=0; } ~NoLib(){ g_in_lib=save; } };
 static void* rec_alloc(RecMM*r,char kind,size_t size,bool zero){ NoLib nl;
-  if(r->should_fail()){ r->log.push_back({kind,0,(long long)size,0,0}); errno=ENOMEM; return nullptr; }
+  if(r->should_fail() || size>((size_t)1<<28)){ r->log.push_back({kind,0,(long long)size,0,0}); errno=ENOMEM; return nullptr; }   // (no real allocator is asked for more than 256 MiB here except to see it refuse)
   void*p=zero?calloc(1,size?size:1):malloc(size?size:1); long id=r->nextid++; r->live[p]={id,size}; r->log.push_back({kind,id,(long long)size,1,0}); return p; }
 static void* rec_malloc(UriMemoryManager*m,size_t n){ return rec_alloc(self(m),'m',n,false); }
 static void* rec_calloc(UriMemoryManager*m,size_t a,size_t b){ size_t t; if(__builtin_mul_overflow(a,b,&t)){ self(m)->log.push_back({'c',0,-1,0,0}); errno=ENOMEM; return nullptr; } return rec_alloc(self(m),'c',t,true); }
